@@ -13,6 +13,7 @@ static void build(void) {
   for (int tier = 0; tier < 2; tier++) for (int W = 1; W <= 2; W++) {
     int K = tier ? 3 : 2;
     for (int a = 0; a < 4; a++) add(tier, FM_SLEEP, a, 0, W, a == 3 ? 2 : K);
+    add(tier, FM_SLEEP, 5, 0, W, tier ? 2 : 1);   /* a: 5 nanosleep(3us) with the remainder written over the request (nanosleep(&ts, &ts)) */
     add(tier, FM_SLEEP, 4, 0, W, 2);   /* a: 4 nanosleep(3us) in a thread with a cancellation request pending: the sleep is not a cancellation point that may return early with 0 */        /* a: 0 nanosleep(0), 1 nanosleep(3 ticks), 2 usleep(5us), 3 sleep(0) */
     /* durations of seconds on a coarse clock (0.7 s per read, deviation 1.6 s): a: 0 usleep(4294968) [just above 2^32 ns], 1 usleep(999999), 2 sleep(3), 3 nanosleep(2 s + 999999999 ns), 4 usleep(1000000) */
     for (int a = 0; a < 5; a++) add(tier, FM_LONG, a, 0, W, 1);
@@ -29,7 +30,7 @@ static void config(int tier, int prog, int * W, int * K) { build(); *W = P[tier]
 static const char * const dl_name[] = { "deadline 1s in the past", "deadline = now", "deadline = now+3 ticks", "deadline = now+8 ticks" };
 static void describe(int tier, int prog, char * b, size_t n) {
   build(); prog_t * p = &P[tier][prog];
-  static const char * const sl[] = { "nanosleep(0)", "nanosleep(3us)", "usleep(5)", "sleep(0)", "nanosleep(3us) with a cancellation request pending" };
+  static const char * const sl[] = { "nanosleep(0)", "nanosleep(3us)", "usleep(5)", "sleep(0)", "nanosleep(3us) with a cancellation request pending", "nanosleep(3us) with rem == req" };
   static const char * const ho[] = { "nobody holds the mutex", "holder yields once", "holder yields 3 times" };
   static const char * const tg[] = { "target already finished", "target yields once", "target yields 3 times" };
   switch (p->fam) {
@@ -95,6 +96,7 @@ static void run(int tier, int prog) {
     case 0: { struct timespec rq = { 0, 0 }; want_ns = 0; r = myth_nanosleep(&rq, 0); break; }
     case 1: { struct timespec rq = { 0, 3000 }; want_ns = 3000; r = myth_nanosleep(&rq, 0); break; }
     case 2: want_ns = 5000; r = myth_usleep(5); break;
+    case 5: { struct timespec rq = { 0, 3000 }; want_ns = 3000; r = myth_nanosleep(&rq, &rq); break; }
     case 4: { want_ns = 3000; myth_thread_t c = myth_create(cancelled_sleeper, 0); myth_join(c, 0); r = cs_r; t0.tv_sec = 1000000L; t0.tv_nsec = 0; mv_clock_read(&t1); MV_CHECK(cs_elapsed >= want_ns, "a sleep of %ld ns in a thread with a pending cancellation request returned 0 after %ld ns", want_ns, cs_elapsed); break; }
     default: want_ns = 0; r = (int)myth_sleep(0); break;
     }
